@@ -47,6 +47,8 @@ func runC12(c *core.Ctx) {
 	ruleRemovalKeys(c)
 	c.Doc("C06.state-guarded", "the authentication state of a connection is read and written under a mutex of its channel: a concurrent map read and write aborts the server for everyone — rule shared with C06", 2)
 	ruleAuthStateGuarded(c, lc, "C06.state-guarded")
+	c.Doc("C12.errors-reported", "no error is built and then dropped in bus/** (a connection or lookup failure that is not reported leaves a nil client or object behind: the next use panics in a mailbox goroutine)", 1)
+	ruleNoErrorBuiltAndDropped(c, "C12.errors-reported", "bus")
 	c.Doc("C12.no-panic", "no explicit panic on the message-receiving path", 1)
 	ruleNoPanicInReceive(c)
 	c.Doc("C12.negative-length", "no wire integer that went through a signed type sizes an allocation without a lower-bound check (the panic kills the server for everyone)", 10)
@@ -75,6 +77,7 @@ func ruleBusLocks(c *core.Ctx, lc *core.LockCache) {
 		fns = append(fns, fn)
 	}
 	lockPairing(c, lc, rule, fns)
+	ruleNoLockCopies(c, rule, fns)
 	skip := map[core.LockClass]string{}
 	if a := getEP(c, rule); a != nil {
 		// the end point's handler mutex (whatever it is called): decided with more precision
